@@ -788,6 +788,17 @@ ENTRIES += [
 ]
 
 ENTRIES += [
+    # ---------------------------------------------------------------- fifth behaviour-preserving round: broken twins of its three generalisations,
+    # and mutants / twins of the rules prompted by the ninth seeding round
+    M("R5-mask-map-components-reversed", ["C15", "C16"], ["C15.6", "C16.1"], (DMC, "map(categorical_mask_logits, self.distribution, mask_pieces)", "map(categorical_mask_logits, reversed(self.distribution), mask_pieces)"), base="C04-ref14"),
+    M("R5-executed-action-bounds-crossed", ["C04", "C05"], ["C04", "C05"], ("lerax/algorithm/base_algorithm.py", "        case Box(low=low, high=high):\n            return jnp.clip(action, low, high)", "        case Box(low=high, high=low):\n            return jnp.clip(action, low, high)"), base="C05-ref14"),
+    M("R5-env-buffer-size-by-steps", "C05", "C05.5", (OFP, "        return self.buffer_size // self.num_envs", "        return self.buffer_size // self.num_steps"), base="C05-ref15"),
+    M("S9-sample-leaf-guard-by-shape", ["C06", "C12"], ["C06.3", "C12.6"], (RPB, "            if not isinstance(x, jnp.ndarray) or x.ndim == 0:\n                return x\n            return jnp.take(x, batch_indices, axis=0)", "            if not isinstance(x, jnp.ndarray) or x.shape == self.position.shape:\n                return x\n            return jnp.take(x, batch_indices, axis=0)")),
+    V("S9-v-sample-leaf-guard-rank-below-one", ["C06", "C12"], (RPB, "            if not isinstance(x, jnp.ndarray) or x.ndim == 0:\n                return x\n            return jnp.take(x, batch_indices, axis=0)", "            if not isinstance(x, jnp.ndarray) or x.ndim < 1:\n                return x\n            return jnp.take(x, batch_indices, axis=0)")),
+    M("S9-gym-adapter-step-key-not-stored", ["C13", "C01", "C12"], ["C13.7", "C01.8", "C12.7"], (GY, "        self.key, step_key = jr.split(self.key)\n", "        _, step_key = jr.split(self.key)\n")),
+]
+
+ENTRIES += [
     # ---------------------------------------------------------------- later additions
     M("C15-sac-bounds-swapped", "C15", "C15.3", (PS, "                high=self.action_space.high,\n                low=self.action_space.low,\n            )\n        else:", "                high=self.action_space.low,\n                low=self.action_space.high,\n            )\n        else:")),
     M("C13-flatten-wrong-size", "C13", "C13.5", (WTO, "shape=(int(jnp.asarray(self.env.observation_space.flat_size)),)", "shape=(int(jnp.asarray(self.env.action_space.flat_size)),)")),
